@@ -413,13 +413,13 @@ def _tie_size(g, alleles_called, novel_keys):
     return ncopies * (len(muts) + len(novel_keys)) + 1
 
 
-def event_row(view, b, ev, fam, first, kind, evd, tol, band, cat=None):
+def event_row(view, b, ev, fam, first, kind, evd, tol, band, cat=None, mband=None):
     g = view.gene[b]
     mentioned = {a for m in ev["major"] for s in m["sols"] for a in s["alleles"]} | {a for m in ev["minor"] for a in m["alleles"]}
     mentioned |= {c[0] for m in ev["minor"] for s in m["sols"] for c in s["copies"]}
     row = {
         "fam": fam, "first": first, "kind": kind, "build": b, "raised": ev["raised"], "lost": ev["lost"], "mismatch": ev["mismatch"],
-        "cat": cat or _digest(catalogue_refseq(view, b)), "evd": evd, "tol": tol, "band": band,
+        "cat": cat or _digest(catalogue_refseq(view, b)), "evd": evd, "tol": tol, "band": band, "mband": band if mband is None else mband,
         "cfgs": sorted(g.cn_configs), "majors": sorted([an, a.cn_config] for an, a in g.alleles.items()),
         "minors": sorted([an, mn] for an in mentioned if an in g.alleles for mn in g.alleles[an].minors),
         "variants": sorted({f"{v[3] + 1}{v[4]}" for v in g.mutations.values()}),
@@ -572,6 +572,7 @@ def _reads_task(task):
             fam = f"reads/{view.label}/{seed}/{f}"
             evs, runs_meta, skip = {}, {}, None
             sim_seed = rng.randrange(1 << 30)
+            phase = f % 2 == 1  # read phasing off in every other family: refined scores comparable inside the indel band
             for b in BUILDS:
                 g = view.gene[b]
                 haps = []
@@ -585,8 +586,9 @@ def _reads_task(task):
                 except Exception as ex:  # simulator limitation: not a verdict
                     skip = f"{type(ex).__name__}: {ex}"[:200]
                     break
+                kw = {} if phase else {"phase": False}
                 with aldyenv.quiet_stderr():
-                    r = pipeline.run_genotype(yml, s["bam"], s["profile_bam"], cn_region=s["cn_region"], genome=b)
+                    r = pipeline.run_genotype(yml, s["bam"], s["profile_bam"], cn_region=s["cn_region"], genome=b, **kw)
                 evs[b] = reads_event(view, b, r)
                 runs_meta[b] = {"error": r["error"], "result": [(x["major_diplotype"], x["minor_diplotype"], x["score"]) for x in (r["result"] or [])]}
                 for p in (bam, bam + ".bai", s.get("profile_bam", ""), s.get("profile_bam", "") + ".bai"):
@@ -599,15 +601,18 @@ def _reads_task(task):
             nfus = sum(1 for c in planted["struct"] if c != "1")
             # three-valued band (units of 1e-6): see run() ctx.assumptions
             band = int(round(SCORE_U * (1 + nind + nfus) * 2.0 * (len(planted["struct"]) + 1) / depth))
-            evd = _digest([planted["bag"], planted["carried"], depth, read_len])
+            # with read phasing the refined score also counts reads that contradict the phase of a copy
+            # (0.4 each); which reads span two loci depends on the tiling offset: no useful bound
+            mband = band if not phase else 1000 * SCORE_U
+            evd = _digest([planted["bag"], planted["carried"], depth, read_len, phase])
             for i, b in enumerate(BUILDS):
-                row = event_row(view, b, evs[b], fam, i == 0, "reads", evd, 2, band, cat=cat_d[b])
+                row = event_row(view, b, evs[b], fam, i == 0, "reads", evd, 2, band, cat=cat_d[b], mband=mband)
                 row["id"] = f"{fam}/{b}"
                 for x in row["final"]:
                     x.pop("diplotype", None)
                 out["rows"].append(row)
             out["meta"][fam] = {"database": view.label, "db_spec": [spec[0], spec[1], spec[2]] + list(spec[3:]), "seed": seed, "family": f,
-                                "strands": view.strand, "planted": planted, "depth": depth, "read_len": read_len, "band_1e-6": band,
+                                "strands": view.strand, "planted": planted, "depth": depth, "read_len": read_len, "band_1e-6": band, "phase": phase,
                                 "yaml": open(yml).read() if f == 0 else "(same as family 0 of the task)",
                                 "results": {b: {k: evs[b][k] for k in ("raised", "cn", "major", "minor", "final")} for b in BUILDS}, "runs": runs_meta,
                                 "nontrivial": bool(evs["hg19"]["final"]), "fusion_called": any(c != "1" for s in evs["hg19"]["cn"] for c in s["struct"]),
@@ -665,6 +670,8 @@ def _canaries(rng, rows, rejected_ids, n):
             kinds += ["minorscore", "minorname", "added", "addedstrand"]
         if b["final"]:
             kinds += ["finalscore"]
+        if b["mband"] != b["band"]:  # read phasing on: refined / final scores are not comparable
+            kinds = [k for k in kinds if k not in ("minorscore", "finalscore")]
         kind = kinds[i % len(kinds)]
         if kind == "cnscore":
             b["cn"][0]["score"] += 5 * b["band"] + 50
@@ -684,12 +691,12 @@ def _canaries(rng, rows, rejected_ids, n):
                     s["alleles"] = sorted([alt[0]] + s["alleles"][1:])
         else:
             if kind == "finalscore":
-                b["final"][0]["score"] += 5 * b["band"] + 50
+                b["final"][0]["score"] += 5 * b["mband"] + 50
             else:
                 m = next(m for m in b["minor"] if m["sols"])
                 s = m["sols"][0]
                 if kind == "minorscore" or not s["copies"]:
-                    s["score"] += 5 * b["band"] + 5 * max(1, s["nadd"]) * m["tie"] + 50
+                    s["score"] += 5 * b["mband"] + 5 * max(1, s["nadd"]) * m["tie"] + 50
                 elif kind == "minorname":
                     s["copies"][0][1] = s["copies"][0][1] + "x"
                 elif kind == "added":
@@ -724,8 +731,10 @@ def run(ctx):
         "databases whose two builds are on opposite strands AND have touching variant footprints are skipped (the locus of a variant is then strand dependent)",
         "table level scores compared in units of 1e-6 with tolerance 2e-6",
         "alignment level, three-valued: |score difference| <= 2e-6 ACCEPT; <= band = (1 + planted indel loci + non-default structures) * 2 * (copies + 1) / depth "
-        "(+ 0.4 * 2 * (1 + planted multi-base loci) * copies when read phasing is on) UNDECIDED: tiling offsets differ between strands, the simulator "
-        "drops the reads that would start/end inside an indel (+-1 read per copy and locus); a different refined solution inside the band is UNDECIDED too",
+        "UNDECIDED: tiling offsets differ between strands, the simulator drops the reads that would start/end inside an indel (+-1 read per copy and "
+        "locus); every other family runs with read phasing on: its refined and final scores count reads contradicting the phase of a copy (0.4 each), "
+        "which depends on the tiling offset, so any difference of those two scores is UNDECIDED there (names, structures, major scores are still "
+        "compared); a different refined solution inside the band is UNDECIDED too",
         "minor stage with read phasing is only exercised by (ii)",
     ]
     # ---------------- implementation side
